@@ -86,7 +86,9 @@ class Ctx:
         for ln in lines:
             m = re.match(r"^(\s*)(\w+)\s*(=|<-)\s*.*$", ln)
             if m and m.group(2) in consts:
-                out.append(f"{m.group(1)}{m.group(2)} {m.group(3)} {consts[m.group(2)]}")
+                val = str(consts[m.group(2)])
+                op = "<-" if re.fullmatch(r"[A-Za-z_]\w*", val) and val not in ("TRUE", "FALSE") else "="
+                out.append(f"{m.group(1)}{m.group(2)} {op} {val}")
                 seen.add(m.group(2))
             else:
                 out.append(ln)
